@@ -54,6 +54,10 @@ def gen_case(rng):
         ext, docs = contents[top]
         d0 = dict(docs[0])
         missing = rng.choice(["nosuch", "gone.layer", "nos*", "other.nosuch"])
+        if rng.random() < 0.5:
+            # a file whose name merely STARTS with the missing layer's name (one more dot component) is not that layer
+            deeper = missing.replace("*", "X") + "." + rng.choice(["extra", "u.v"])
+            contents[deeper] = (rng.choice(["yaml", "toml", "json"]), [{"lookalike": True}])
         how = rng.random()
         if how < 0.6:
             ps = ["other", missing]
